@@ -1,8 +1,12 @@
-//! pvc-ops: checks C02, C05.  usage: pvc-ops <Cxx> --tier quick|thorough [--replay f] [--only family]
+//! pvc-ops: checks C02, C05 and the ciphertext-operation parts of the cross-cutting properties C10, C11, C12.  usage: pvc-ops <Cxx> --tier quick|thorough [--replay f] [--only family]
 
 pub mod c02;
 pub mod c05;
+pub mod c10ops;
+pub mod c11ops;
+pub mod c12ops;
 pub mod util;
+pub mod xops;
 
 use pvc_engine::{Run, load_replay, parse_args};
 
@@ -18,9 +22,27 @@ fn main() {
             run.finish()
         }};
     }
+    // parts of multi-group properties: a replay descriptor of another group's family is not ours (exit code 2)
+    macro_rules! part {
+        ($level:expr, $run:path, $replay:path) => {{
+            let mut run = Run::new(&args, $level);
+            match &args.replay {
+                Some(p) => {
+                    if !$replay(&mut run, &load_replay(p)) {
+                        std::process::exit(2);
+                    }
+                }
+                None => $run(&mut run),
+            }
+            run.finish()
+        }};
+    }
     let code = match args.property.as_str() {
         "C02" => check!("model_checking", c02::run, c02::replay),
         "C05" => check!("exploration", c05::run, c05::replay),
+        "C10" => part!("exploration", c10ops::run, c10ops::replay),
+        "C11" => part!("model_checking", c11ops::run, c11ops::replay),
+        "C12" => part!("exploration", c12ops::run, c12ops::replay),
         o => {
             eprintln!("pvc-ops: unknown property {o}");
             2
